@@ -164,6 +164,15 @@ CATALOGUE = [
     ("name-records-unsorted", "ttLib/tables/_n_a_m_e.py", "        names.sort()  # sort according to the spec; see NameRecord.__lt__()", "        pass", "C02", "NameTableRoundTrip", "alarm"),
     ("hdmx-widths-in-dict-order", "ttLib/tables/_h_d_m_x.py", "            for glyphName in glyphOrder:\n                width = widths[glyphName]", "            for glyphName in widths:\n                width = widths[glyphName]", "C02", "HdmxRoundTrip", "alarm"),
     ("meta-offsets-not-advanced", "ttLib/tables/_m_e_t_a.py", "            dataOffset += len(data)", "            dataOffset += 0", "C02", "MetaRoundTrip", "alarm"),
+    ("desub-patch-keeps-subr-number", "cffLib/transforms.py", "            desubroutinized[idx - 2 : idx] = expansion", "            desubroutinized[idx - 1 : idx] = expansion", "C12", "DesubroutinizeCharString", "alarm"),
+    ("desub-no-cut-after-endchar", "cffLib/transforms.py", '                    : desubroutinized.index("endchar") + 1', "                    : len(desubroutinized)", "C12", "DesubroutinizeCharString", "alarm"),
+    ("unused-subrs-not-renumbered-inside-subrs", "cffLib/transforms.py", "            for subr in subrs.items:\n                _cs_subset_subroutines(subr, local_subrs, font.GlobalSubrs)", "            pass", "C12", "RemoveUnusedSubroutines", "alarm"),
+    ("dehint-mask-operand-left", "cffLib/transforms.py", "                del p[i : i + 2]", "                del p[i : i + 1]", "C12", "RemoveHintsKeepsOutlines", "alarm"),
+    ("dehint-width-test-inverted", "cffLib/transforms.py", "            if charstring.width != charstring.private.defaultWidthX:", "            if charstring.width == charstring.private.defaultWidthX:", "C12", "RemoveHintsKeepsOutlines", "alarm"),
+    ("overflow-promotes-one-lookup-only", "ttLib/tables/otTables.py", "    for lookupIndex in range(lookupIndex, len(lookups)):\n        lookup = lookups[lookupIndex]\n        if lookup.LookupType != extType:", "    for lookupIndex in range(lookupIndex, lookupIndex + 1):\n        lookup = lookups[lookupIndex]\n        if lookup.LookupType != extType:", "C06", "FixLookupOverFlows", "alarm"),
+    ("mvar-first-table-model-reused", "varLib/__init__.py", "        if tableTag != lastTableTag:\n            tables = fontTable = None", "        if tableTag != lastTableTag and lastTableTag is None:\n            tables = fontTable = None", "C10", "AddMVAR", "alarm"),
+    ("gvar-deltas-paired-with-wrong-support", "varLib/__init__.py", "        for i, (delta, support) in enumerate(zip(deltas[1:], supports[1:])):", "        for i, (delta, support) in enumerate(zip(deltas[1:], supports)):", "C10", "AddGvar", "alarm"),
+    ("vorg-default-of-first-master", "varLib/__init__.py", "                metrics[glyph] if glyph in metrics else defaultVOrig", "                metrics[glyph] if glyph in metrics else vOrigMetricses[0][1]", "C10", "GetAdvanceMetrics", "alarm"),
     ("closure-memo-subset-spelling", "subset/__init__.py", "    if cur_glyphs.issubset(covered):\n        return\n    covered.update(cur_glyphs)\n\n    for st in self.SubTable:", "    if cur_glyphs <= covered:\n        return\n    covered.update(cur_glyphs)\n\n    for st in self.SubTable:", "C07", "LookupClosureMemo", "green"),
 ]
 
